@@ -247,7 +247,6 @@ Proof.
   pose proof (good_run_op o (clear_log s) (WF_clear_log s W)) as [W1 F1].
   destruct (handle_of o); [destruct (_ <? _)|]; cbn;
     try (destruct (run_op o (clear_log s)) as [r s1]; cbn in *; split; [auto|congruence]).
-  split; [apply WF_clear_log, W|discriminate].
 Qed.
 
 Theorem fuel_sufficient : forall ops s, WF s ->
@@ -290,14 +289,85 @@ Qed.
 Lemma quiet_cancel_nested : quiet cancel_nested.
 Proof. intro s. unfold cancel_nested. destruct (c_nested s); [apply quiet_cancel|auto]. Qed.
 
+Definition root_close_fin (k : nat) (t : bool) : M :=
+  bind (fun s => if active k s || t then deact_root k s else (Ok, s))
+       (fun s => if opt_is (c_root s) k then (Ok, set_root None s) else (Ok, s)).
+
+Lemma root_close_impl_inactive : forall k t s, active k s = false ->
+  root_close_impl k t s = finally cancel_nested (root_close_fin k t) s.
+Proof. intros. unfold root_close_impl, root_close_fin, finally. unfold bind at 1. rewrite H. reflexivity. Qed.
+
+Lemma quiet_root_close_fin : forall k t, quiet (root_close_fin k t).
+Proof.
+  intros. apply quiet_bind.
+  - apply (quiet_if (fun s => active k s || t)); auto using quiet_deact_root, quiet_ok.
+  - apply (quiet_if (fun s => opt_is (c_root s) k) (fun s => (Ok, set_root None s))); [|apply quiet_ok].
+    apply quiet_pure; auto.
+Qed.
+
 Lemma quiet_root_close_impl_inactive : forall k t s, active k s = false ->
   s_out (snd (root_close_impl k t s)) = s_out s /\ s_db (snd (root_close_impl k t s)) = s_db s.
 Proof.
-  intros k t s H. unfold root_close_impl.
-  apply (quiet_finally (bind (fun s0 => if active k s0 then (Ok, s0) else (Ok, s0)) cancel_nested)).
-  - apply quiet_bind; [|apply quiet_cancel_nested]. intro s0. destruct (active k s0); auto.
-  - apply quiet_bind.
-    + apply (quiet_if (fun s => active k s || t)); auto using quiet_deact_root, quiet_ok.
-    + apply (quiet_if (fun s => opt_is (c_root s) k) (fun s => (Ok, set_root None s))); [|apply quiet_ok].
-      apply quiet_pure; auto.
+  intros k t s H. rewrite root_close_impl_inactive by exact H.
+  apply quiet_finally; auto using quiet_cancel_nested, quiet_root_close_fin.
+Qed.
+
+Lemma quiet_nested_close_impl_inactive : forall k w s, active k s = false ->
+  s_out (snd (nested_close_impl k w s)) = s_out s /\ s_db (snd (nested_close_impl k w s)) = s_db s.
+Proof.
+  intros k w s H.
+  assert (E : nested_close_impl k w s =
+              finally (fun s => (Ok, s)) (bind (fun s => (Ok, set_active k false s)) (deact_nested k w)) s).
+  { unfold nested_close_impl, finally. rewrite H. reflexivity. }
+  rewrite E. apply quiet_finally; [apply quiet_ok|].
+  apply quiet_bind; [apply quiet_pure; auto|apply quiet_deact_nested].
+Qed.
+
+Lemma quiet_t_close_inactive : forall k s, active k s = false ->
+  s_out (snd (t_close k s)) = s_out s /\ s_db (snd (t_close k s)) = s_db s.
+Proof.
+  intros. unfold t_close. destruct (is_root k s);
+    [apply quiet_root_close_impl_inactive|apply quiet_nested_close_impl_inactive]; auto.
+Qed.
+Lemma quiet_t_rollback_inactive : forall k s, active k s = false ->
+  s_out (snd (t_rollback k s)) = s_out s /\ s_db (snd (t_rollback k s)) = s_db s.
+Proof.
+  intros. unfold t_rollback. destruct (is_root k s);
+    [apply quiet_root_close_impl_inactive|apply quiet_nested_close_impl_inactive]; auto.
+Qed.
+Lemma t_commit_inactive : forall k s, active k s = false ->
+  exists e, t_commit k s = (Raise e, s).
+Proof.
+  intros. unfold t_commit, root_do_commit, nested_do_commit. rewrite H.
+  destruct (is_root k s); destruct (opt_is _ _); eauto.
+Qed.
+
+(* an operation on a transaction object that is no longer active: nothing reaches the database,
+   the database is unchanged, and commit() raises without changing anything *)
+Theorem inactive_sends_nothing : forall o k s, handle_of o = Some k -> active k s = false ->
+  (forall j, o <> TEnter j) ->
+  s_out (step_st o s) = [] /\ s_db (step_st o s) = s_db s /\
+  (o = TCommit k -> exists e, step o s = Some (Raise e, clear_log s) \/ step o s = None).
+Proof.
+  intros o k s Hh Ha Hne. unfold step_st, step. rewrite Hh.
+  destruct (k <? length (txns s)); [|cbn; split; [auto|split; [auto|intros; exists OperationalError; auto]]].
+  assert (Ha' : active k (clear_log s) = false) by (rewrite active_clear_log; exact Ha).
+  destruct o; cbn in Hh; inversion Hh; subst; cbn [run_op].
+  - destruct (t_commit_inactive k _ Ha') as [e ->]. cbn. split; [auto|split; [auto|]]. intros _. exists e. auto.
+  - pose proof (quiet_t_rollback_inactive k _ Ha') as [A B].
+    destruct (t_rollback k (clear_log s)); cbn in *. split; [auto|split; [auto|discriminate]].
+  - pose proof (quiet_t_close_inactive k _ Ha') as [A B].
+    destruct (t_close k (clear_log s)); cbn in *. split; [auto|split; [auto|discriminate]].
+  - exfalso. eapply Hne. reflexivity.
+  - assert (Q : s_out (snd (t_exit k exc (clear_log s))) = [] /\ s_db (snd (t_exit k exc (clear_log s))) = s_db s).
+    { unfold t_exit. rewrite Ha', andb_false_r. cbn [negb].
+      match goal with |- context [finally ?m ?f] => assert (Qm : quiet f) end.
+      { apply quiet_pure. intro s1. destruct (_ || _); auto. }
+      unfold finally.
+      assert (Qb : s_out (snd ((if installed k (clear_log s) then (Ok, clear_log s) else t_close k (clear_log s)))) = []
+                   /\ s_db (snd ((if installed k (clear_log s) then (Ok, clear_log s) else t_close k (clear_log s)))) = s_db s).
+      { destruct (installed k (clear_log s)); [auto|]. apply (quiet_t_close_inactive k _ Ha'). }
+      destruct (if installed k (clear_log s) then _ else _) as [r s1]. cbn [snd] in Qb.
+      rewrite Ha'. cbn [negb snd]. destruct Qb. destruct (_ || _); cbn; split; assumption. }
+    destruct (t_exit k exc (clear_log s)); cbn in *. destruct Q. split; [auto|split; [auto|discriminate]].
 Qed.
